@@ -177,7 +177,7 @@ func hexCap(b []byte, n int) string {
 }
 
 func witnessOf(t *target, c *tcase) map[string]any {
-	w := map[string]any{"entry_point": t.name, "class": c.class, "sub": c.sub, "len": len(c.data), "input_hex": hexCap(c.data, 4096)}
+	w := map[string]any{"entry_point": t.name, "class": c.class, "sub": c.sub, "len": len(c.data), "input_hex": hexCap(c.data, 128<<10)}
 	if t.kind == "text" {
 		w["input_text"] = capStr(string(c.data), 600)
 	}
